@@ -252,6 +252,11 @@ pub fn check(scn: &Scenario, c: &mut Counters) -> Verdict {
         Err(e) => return Verdict::harness(e),
     };
     c.absorb_run(&out);
+    if out.lost_wakeup.is_some() || out.budget_exhausted {
+        // liveness under schedules is C12's business
+        c.bump("skipped.liveness");
+        return Verdict::skip("evaluation did not finish under this schedule (C12)".into());
+    }
     let cacheable: HashMap<&str, bool> = scn.functions.iter().map(|f| (f.name.as_str(), f.cacheable)).collect();
     let ntasks = scn.tasks.len();
     let mut sig = 0u64;
